@@ -22,44 +22,43 @@ def _alarm(signum, frame):
 
 
 class watchdog:
-    """context manager: raise HistoryTimeout in the main thread after `seconds`"""
+    """context manager: raise HistoryTimeout in the main thread after `seconds` of CPU time of this process (a looping
+    implementation burns CPU; CPU time does not depend on the load of the box), with a wall-clock backstop of 15x."""
 
     def __init__(self, seconds):
         self.seconds = seconds
 
     def __enter__(self):
         import signal
-        self.old = signal.signal(signal.SIGALRM, _alarm)
-        signal.setitimer(signal.ITIMER_REAL, self.seconds)
+        self.old = (signal.signal(signal.SIGPROF, _alarm), signal.signal(signal.SIGALRM, _alarm))
+        signal.setitimer(signal.ITIMER_PROF, self.seconds)
+        signal.setitimer(signal.ITIMER_REAL, 15 * self.seconds)
 
     def __exit__(self, *a):
         import signal
+        signal.setitimer(signal.ITIMER_PROF, 0)
         signal.setitimer(signal.ITIMER_REAL, 0)
-        signal.signal(signal.SIGALRM, self.old)
+        signal.signal(signal.SIGPROF, self.old[0])
+        signal.signal(signal.SIGALRM, self.old[1])
         return False
 
 
-HISTORY_TIMEOUT = 90   # seconds per history (a history normally takes well under a second)
+HISTORY_TIMEOUT = 90   # CPU seconds per history (a history normally takes well under a second, at most ~6 s)
 
 
 def run_history(args):
     """Run one random history under a watchdog: a call that never returns is a finding, not a hung check."""
-    import signal
     state = dict(steps=[], findings=[], hist=[], last=None, seed=args[0], n=0, rads=())
-    old = signal.signal(signal.SIGALRM, _alarm)
-    signal.setitimer(signal.ITIMER_REAL, HISTORY_TIMEOUT)
     try:
-        return _run_history(args, state)
+        with watchdog(HISTORY_TIMEOUT):
+            return _run_history(args, state)
     except HistoryTimeout:
         last = state['last']
         if last is not None:
             state['findings'].append(dict(kind='hang', step=max(0, len(state['steps']) - 1), call=last[1], pre=last[0],
-                                          detail=f'no return within {HISTORY_TIMEOUT}s'))
+                                          detail=f'no return within {HISTORY_TIMEOUT}s of CPU time'))
         return dict(seed=state['seed'], n=state['n'], rads=state['rads'], steps=state['steps'],
                     findings=state['findings'], hist=state['hist'][:len(state['steps'])])
-    finally:
-        signal.setitimer(signal.ITIMER_REAL, 0)
-        signal.signal(signal.SIGALRM, old)
 
 
 def _run_history(args, state):
